@@ -19,5 +19,7 @@ TECH = {
  "C18": "table agreement between URI constants, registry and handlers (external WAMP meta API table), error-URI set audit, owner confinement, meta-event guard/order obligations (static analysis)",
  "C20": "untrusted-any numeric-assertion sink analysis, retention and save guard obligations (edge cut), ring-buffer and filter-order must-pass obligations (static analysis)",
  "C19": "regular-language equivalence of the URI patterns with reference languages (product construction over compiled regexp programs), dispatch enumeration, guard obligations with constants (static analysis)",
+ "C14": "table agreement over go/types and SSA (constants, constructor arms, methods, struct tags), handle-initialisation pairing, loop-bound guard obligations (static analysis); value round-trip is explicitly not claimed",
+ "C15": "frame read/write guard obligations (edge cut), handshake table agreement, nil-message and reserved-frame reachability, numeric-assertion sink analysis (static analysis)",
  "C03": "SSA edge-cut guard obligations, switch/case-set agreement, INVOCATION provenance (static analysis)",
 }
